@@ -323,3 +323,92 @@ impl<'a> Session<'a> {
         self.eng[&e].0.deep_clone()
     }
 }
+
+/// "Language-derived" vocabulary: all single bytes, plus substrings (2..=maxlen bytes) of sample
+/// strings of the grammar's own language (random byte-level walks), plus cross-overs of those
+/// (near-miss tokens that agree with a real substring except for the first or last byte),
+/// duplicates, and the usual specials. Such tokens span several lexemes of *this* grammar.
+pub fn lang_vocab(gram: &Value, d: &Value, seed: u64) -> crate::vocab::Vocab {
+    use crate::rng::Rng;
+    let mut rng = Rng::new(seed ^ 0x5151);
+    let canonical = d["canonical"].as_u64().unwrap_or(0) != 0;
+    let n_multi = d["n_multi"].as_u64().unwrap_or(80) as usize;
+    let maxlen = d["maxlen"].as_u64().unwrap_or(5) as usize;
+    let base = crate::vocab::byte_vocab(false);
+    let mut samples: Vec<Vec<u8>> = vec![];
+    if let Ok(cfg) = Cfg::new(base.clone(), 0, &serde_json::json!({"slices": []})) {
+        for _ in 0..12 {
+            let mut m = cfg.matcher(gram);
+            let mut out = vec![];
+            for _ in 0..40 {
+                let mask = match m.compute_mask() {
+                    Ok(x) => x,
+                    Err(_) => break,
+                };
+                let ids: Vec<u32> = mask_ids(&mask).into_iter().filter(|&t| t < 256).collect();
+                if ids.is_empty() {
+                    break;
+                }
+                // prefer printable ASCII so that free-text lexemes do not drown the structure
+                let pr: Vec<u32> = ids.iter().cloned().filter(|&t| (32..127).contains(&t)).collect();
+                let t = if !pr.is_empty() && rng.chance(90, 100) { *rng.pick(&pr) } else { *rng.pick(&ids) };
+                if m.consume_token(t).is_err() {
+                    break;
+                }
+                out.push(t as u8);
+                if m.is_stopped() {
+                    break;
+                }
+            }
+            if out.len() >= 2 {
+                samples.push(out);
+            }
+        }
+    }
+    let mut words: Vec<Vec<u8>> = (0..=255u8).map(|x| vec![x]).collect();
+    let mut subs: Vec<Vec<u8>> = vec![];
+    if !samples.is_empty() {
+        for _ in 0..n_multi {
+            let s = rng.pick(&samples);
+            let len = 2 + rng.below(maxlen - 1);
+            if s.len() < len {
+                continue;
+            }
+            let i = rng.below(s.len() - len + 1);
+            subs.push(s[i..i + len].to_vec());
+        }
+    }
+    let mut extra: Vec<Vec<u8>> = vec![];
+    for _ in 0..n_multi / 2 {
+        if subs.len() < 2 {
+            break;
+        }
+        let u = rng.pick(&subs).clone();
+        let v = rng.pick(&subs).clone();
+        let mut w = u.clone();
+        if rng.chance(50, 100) {
+            let k = w.len() - 1;
+            w[k] = v[v.len() - 1];
+        } else {
+            w[0] = v[0];
+        }
+        extra.push(w);
+    }
+    subs.extend(extra);
+    subs.retain(|w| !w.contains(&0xFF));
+    subs.sort();
+    let mut dedup: Vec<Vec<u8>> = vec![];
+    for w in subs {
+        if dedup.last() != Some(&w) || rng.chance(10, 100) {
+            dedup.push(w);
+        }
+    }
+    words.extend(dedup);
+    words.push(b"\xFF<|tool|>".to_vec());
+    words.push(b"\xFF<|user|>".to_vec());
+    words.push(b"\xFF<a>".to_vec());
+    words.push(b"\xFF<[3]>".to_vec());
+    words.push(b"\xFF<|end|>".to_vec());
+    let eos = words.len() as u32 - 1;
+    crate::vocab::Vocab { words, eos, canonical }
+}
